@@ -295,7 +295,7 @@ decltype(auto) call_dynamic(F&& f, Arr const& shape)
     }(std::make_index_sequence<E::rank_dynamic()>{});
 }
 template <typename E>
-E make_extents(Arr const& shape) // the one constructor every other monitor relies on: E(dynamic extents...)
+__attribute__((noinline)) E make_extents(Arr const& shape) // the one constructor every other monitor relies on: E(dynamic extents...)
 {
     return call_dynamic<E>([](auto... v) { return E(v...); }, shape);
 }
